@@ -22,7 +22,7 @@ LEAN = {"module": "Pygom.Props.C11",
         "required": ["Pygom.C11.checkJump_reject_unchanged", "Pygom.C11.checkJump_accept_within",
                      "Pygom.C11.path_within_limits", "Pygom.C11.limits_default", "Pygom.C11.stateLims_aligned",
                      "Pygom.C11.legacy_limits_counterexample"]}
-BUDGET = {"quick": {"models": 60}, "thorough": {"models": 1200, "max_steps": 2000}}
+BUDGET = {"quick": {"models": 120}, "thorough": {"models": 1000, "max_steps": 2000, "steps": [40, 150, 600, 1500]}}
 RULE = ("bounded-rate event models (shared generator, incl. range-style state names) with small integer populations (0-12), "
         "lower / upper / two-sided / absent / default limits per declared state, magnitudes 1-3, x {exact, adaptive tau with "
         "epsilon in {0.01..0.3}, large fixed tau (2-10 expected events per step)} x 2 paths, scalar horizon or list/tuple/array grid; "
@@ -43,7 +43,7 @@ def make_cases(rng, tier, budget):
             continue
         for mode in ("exact", "tau_adaptive", "tau_fixed"):
             c = dict(base)
-            c["sim"] = SC.sim_settings(r, base, mode, big_tau=True)
+            c["sim"] = SC.sim_settings(r, base, mode, big_tau=True, steps=budget.get("steps"))
             if mode == "tau_adaptive" and c["sim"]["epsilon"] is None and r.random() < 0.5:
                 c["sim"]["epsilon"] = r.choice([0.1, 0.3])
             if r.random() < 0.4:
@@ -136,7 +136,7 @@ def run_case(case):
         accepted = max(accepted, len(jr["T"]) - 1)
         if jr["truncated"]: tags.append("truncated")
         # rejected steps: same (x, t) afterwards, and the public step functions return the old state and time
-        check_rejections(model, its, jr, exact, sl, viol, mism, modek)
+        check_rejections(model, its, jr, exact, sl, viol, mism, modek, lims)
     if n_rej_tau: tags.append("tau_rejected")
     if n_retry_ok: tags.append("retry_accepted")
     if n_rej_first: tags.append("first_reaction_rejected")
@@ -146,7 +146,7 @@ def run_case(case):
                        "rejected_tau": n_rej_tau, "retries_accepted": n_retry_ok, "first_reaction_rejected": n_rej_first}}
 
 
-def check_rejections(model, its, jr, exact, sl, viol, mism, modek, max_replays=6):
+def check_rejections(model, its, jr, exact, sl, viol, mism, modek, lims=None, max_replays=6):
     """direct oracle for 'a step that would leave the limits is not taken and leaves state and time unchanged'"""
     if sl is None:
         return
@@ -167,7 +167,10 @@ def check_rejections(model, its, jr, exact, sl, viol, mism, modek, max_replays=6
                     const(np.ravel(it["pure"])))
             out = SC.replay_function("tauLeap", args, {"epsilon": model._epsilon, "seed": None, "pre_tau": model.pre_tau},
                                      pois=[v for _, v in it["pois"]])
-            judge_rejected(out, x, t, "tauLeap", viol, modek)
+            prop = None
+            if not np.any(np.ravel(it["pure"])):
+                prop = x + V.dot(np.array([v for _, v in it["pois"]], float))    # the proposed state, computed here
+            judge_rejected(out, x, t, "tauLeap", viol, modek, prop, lims)
         if k == nrec and k == len(its) - 1 and it["expo"] and not np.all(np.ravel(it["rates"]) == 0):
             # the loop was left by a rejected first-reaction step
             done += 1
@@ -175,10 +178,13 @@ def check_rejections(model, its, jr, exact, sl, viol, mism, modek, max_replays=6
             V = np.asarray(it.get("retry_V", it["V"]), float).reshape(len(x), -1)
             out = SC.replay_function("firstReaction", (x.copy(), sl, t, const(V), const(np.ravel(it["rates"]))),
                                      expo=[v for _, v in it["expo"]])
-            judge_rejected(out, x, t, "firstReaction", viol, modek)
+            rates = np.ravel(it["rates"]); pos = [j for j, r in enumerate(rates) if r > 0]
+            times = [v for _, v in it["expo"]]
+            prop = x + V[:, pos[int(np.argmin(times))]] if len(times) == len(pos) and pos else None
+            judge_rejected(out, x, t, "firstReaction", viol, modek, prop, lims)
 
 
-def judge_rejected(out, x, t, fname, viol, modek):
+def judge_rejected(out, x, t, fname, viol, modek, prop=None, lims=None):
     if not (isinstance(out, tuple) and len(out) == 5):
         viol.append({"what": "%s did not return (t, dt, x, jumps, success) for a rejected step" % fname,
                      "signature": "C11:rejected-return-shape:%s" % fname, "detail": repr(out)[:300]})
@@ -186,6 +192,10 @@ def judge_rejected(out, x, t, fname, viol, modek):
     t_new, dt, x_new, jumps, success = out
     if success:
         return  # the replay was accepted: not a rejected step after all (the tie reports the disagreement)
+    if prop is not None and lims is not None and not SC.within(lims, prop):
+        viol.append({"what": "a step that stays within the declared limits was rejected (%s)" % fname,
+                     "signature": "C11:legal-step-rejected:%s:%s" % (fname, modek),
+                     "detail": "x=%s proposed %s limits %s" % (x.tolist(), np.asarray(prop).tolist(), [l for _, l in lims])})
     if not (np.array_equal(np.asarray(x_new, float), x) and float(t_new) == float(t)):
         viol.append({"what": "a rejected step does not leave state and time unchanged (%s)" % fname,
                      "signature": "C11:rejected-changes-state:%s:%s" % (fname, modek),
